@@ -398,7 +398,10 @@ class Optic:
         """Update the image position such that the marginal ray crosses the
         optical axis at the image location."""
         ya, ua = self.paraxial.marginal_ray()
-        offset = float(np.ravel(ya[-1] / ua[-1])[0])
+        # slope of the ray arriving at the image surface (behind the previous
+        # surface), not the slope behind the image surface itself
+        u_in = ua[-2] if len(ua) > 1 else ua[-1]
+        offset = float(np.ravel(ya[-1] / u_in)[0])
         self.surface_group.surfaces[-1].geometry.cs.z -= offset
 
     def trace(self, Hx, Hy, wavelength, num_rays=100,
